@@ -81,3 +81,51 @@ def rand_idents(rng, n):
         else:
             out.append("V%d" % i)
     return out
+
+
+def payload_expr(spec, f: Field, symbolic=True):
+    ct = concrete_ty(spec, f.ty)
+    if symbolic and (ct in INT_TYPES or ct == "bool"):
+        return nd(ct)
+    if ct in ("&'static str", "&str"):
+        return '"pl"'
+    if ct == "String":
+        return 'String::new()'
+    return "<%s as Default>::default()" % ct
+
+
+def make_fn(spec: EnumSpec, indices=None, fname="make", symbolic=True):
+    """fn make(k: u8) -> E: the k-th variant of `indices` (declaration indices; default: all) with symbolic
+    integer/bool payloads and defaults for the rest."""
+    if indices is None:
+        indices = list(range(len(spec.variants)))
+    arms = []
+    for j, i in enumerate(indices):
+        v = spec.variants[i]
+        arms.append("        %d => %s," % (j, construct(spec, v, [payload_expr(spec, f, symbolic) for f in v.fields])))
+    if not arms:
+        return "pub fn %s(k: u8) -> %s { unreachable!() }" % (fname, spec.ty())
+    return "pub fn %s(k: u8) -> %s {\n    match k {\n%s\n        _ => unreachable!(),\n    }\n}" % (fname, spec.ty(), "\n".join(arms))
+
+
+def bytes_table_fn(fname, items):
+    """fn fname(k: usize) -> &'static [u8] over a list of python strings"""
+    arms = " ".join("%d => %s," % (i, rust_bytes(x.encode())) for i, x in enumerate(items))
+    return "pub fn %s(k: usize) -> &'static [u8] { match k { %s _ => b\"<none>\" } }" % (fname, arms)
+
+
+def opt_bytes_table_fn(fname, items):
+    arms = " ".join("%d => %s," % (i, ("Some(&%s[..])" % rust_bytes(x.encode())) if x is not None else "None") for i, x in enumerate(items))
+    return "pub fn %s(k: usize) -> Option<&'static [u8]> { match k { %s _ => None } }" % (fname, arms)
+
+
+def eligible_print(spec: EnumSpec):
+    """declaration indices of variants whose printed name is the fixed canonical name (C02/C03 domain)"""
+    out = []
+    for i, v in enumerate(spec.variants):
+        if v.disabled or v.default or v.transparent:
+            continue
+        if has_placeholder(canonical(spec, v, with_prefix=False)):
+            continue
+        out.append(i)
+    return out
